@@ -662,8 +662,18 @@ func (c *Client) HandleInbound(data []byte, from net.Addr) (bool, error) {
 		// Tested first: the payload of a ChannelData message is the application's and may carry
 		// the STUN magic cookie where a STUN header has it. A STUN message never looks like
 		// ChannelData (its first two bits are zero, a channel number starts with 01).
+		if !c.fromTURNServer(from) {
+			return true, fmt.Errorf("%w: ChannelData from %s", errIndicationNotFromServer, from)
+		}
+
 		return true, c.handleChannelData(data)
 	case stun.IsMessage(data):
+		// Relayed data and connection attempts are the TURN server's to announce: the same
+		// indication from anybody else who knows this client's address is not relayed data.
+		if isSTUNIndication(data) && !c.fromTURNServer(from) {
+			return true, fmt.Errorf("%w: indication from %s", errIndicationNotFromServer, from)
+		}
+
 		return true, c.handleSTUNMessage(data, from)
 	case c.stunServerAddr != nil && from.String() == c.stunServerAddr.String():
 		// Received from STUN server but it is not a STUN message
@@ -779,6 +789,16 @@ func (c *Client) handleSTUNMessage(data []byte, from net.Addr) error { //nolint:
 	}
 
 	return nil
+}
+
+// isSTUNIndication reports whether the class bits of a STUN header say indication.
+func isSTUNIndication(data []byte) bool {
+	return len(data) >= 2 && data[0]&0x01 == 0 && data[1]&0x10 != 0
+}
+
+// fromTURNServer reports whether a message came from the TURN server's transport address.
+func (c *Client) fromTURNServer(from net.Addr) bool {
+	return c.turnServerAddr == nil || from == nil || from.String() == c.turnServerAddr.String()
 }
 
 func (c *Client) handleChannelData(data []byte) error {
